@@ -1,1 +1,149 @@
-/- C02: property theorems (not yet built). -/
+/- C02 — Object inheritance, late binding and visibility follow the object model.
+   Property theorems only.  `compile t` is the core vector the real builder produces for the object
+   term `t` (checked on every run through the `verif_core_shape` hook); the four walkers are the
+   models of `get_idx_uncached`, `has_field_include_hidden_idx`, `field_visibility_idx`,
+   `fields_visibility`; `defs/chain/visSpec` is the language-level meaning. -/
+import JrsVerif.Proofs.Obj
+
+namespace JrsVerif.Obj
+
+/-- C02.1 a read of `n` on any constructible object takes exactly the definitions from the
+    right-most layer down to the first plain one (`+:` layers accumulate), removed keys masked. -/
+theorem get_compile (t : OT) (n : Name) :
+    (getIdx (compile t) (compile t).length n).map (·.1) = specGet t n := by
+  have := collect_compile t [] n
+  simpa [getIdx, specGet, collect, chainWith_nil] using this
+
+/-- C02.1' `super.n` evaluated from ANY layer `l` is the read of `n` on the object consisting of
+    the layers left of `l` — which is itself a constructible object. -/
+theorem get_super (t : OT) (l : Nat) (n : Name) :
+    ∃ t', (compile t).take l = compile t' ∧
+      (getIdx (compile t) l n).map (·.1) = specGet t' n := by
+  obtain ⟨t', ht⟩ := take_compile t l
+  refine ⟨t', ht, ?_⟩
+  have := collect_compile t' [] n
+  simp only [getIdx, ht]
+  simpa [specGet, collect, chainWith_nil] using this
+
+/-- C02.1'' every contribution's body is bound to `super` = the layers left of the layer that
+    defines it (its `sup` index is the index of its own core). -/
+theorem get_sup_binding (cores : List Core) (idx : Nat) (n : Name) (f : Field) (l : Nat)
+    (h : (f, l) ∈ getIdx cores idx n) :
+    ∃ fs, (cores.take idx)[l]? = some (.oop fs) ∧ lookup fs n = some f := by
+  have := collect_sup_sound (cores.take idx).reverse 0 n f l h
+  simpa using this
+
+/-- C02.2 `objectHasAll` / `in` / `"f" in super`: exists iff some unmasked definition exists. -/
+theorem has_compile (t : OT) (n : Name) :
+    hasIdx (compile t) (compile t).length n = specHas t n := by
+  have := hasGo_compile t [] n
+  simpa [hasIdx, hasGo] using this
+
+theorem has_super (t : OT) (l : Nat) (n : Name) :
+    ∃ t', (compile t).take l = compile t' ∧ hasIdx (compile t) l n = specHas t' n := by
+  obtain ⟨t', ht⟩ := take_compile t l
+  refine ⟨t', ht, ?_⟩
+  have := hasGo_compile t' [] n
+  simp only [hasIdx, ht]
+  simpa [hasGo] using this
+
+/-- the same with the witness computed: `takeTerm t l` is the object `super` denotes at layer `l` -/
+theorem get_super_takeTerm (t : OT) (l : Nat) (n : Name) :
+    (getIdx (compile t) l n).map (·.1) = specGet (takeTerm t l) n := by
+  have := get_compile (takeTerm t l) n
+  rw [compile_takeTerm] at this
+  simp only [getIdx, List.take_length] at this ⊢
+  exact this
+
+theorem has_super_takeTerm (t : OT) (l : Nat) (n : Name) :
+    hasIdx (compile t) l n = specHas (takeTerm t l) n := by
+  have := has_compile (takeTerm t l) n
+  rw [compile_takeTerm] at this
+  simp only [hasIdx, List.take_length] at this ⊢
+  exact this
+
+/-- C02.3 per-name visibility: the top-most `::`/`:::` marker among the unmasked definitions wins,
+    a field with only `:` definitions is visible, no definition = absent. -/
+theorem vis_compile (t : OT) (n : Name) :
+    visIdx (compile t) (compile t).length n = specVis t n := by
+  have h := visGo_compile t [] false n
+  simp only [List.append_nil] at h
+  simp only [visIdx, List.take_length, h, specVis]
+  have := visWith_end (defs t n) false
+  simp only [visGo] at this ⊢
+  rw [this]
+  cases visSpec (defs t n) <;> simp
+
+/-- C02.3' the global walker (`fields_visibility`, used by objectFields*, `==`, manifestation,
+    `std.length`) and the per-name walker (used by objectHas, `in`) agree on EVERY core vector. -/
+theorem visAll_eq_visIdx (cores : List Core) (n : Name) :
+    visAll cores n = visIdx cores cores.length n := by
+  have := visAllGo_eq_visGo cores.reverse 0 0 0 false n rfl
+  simpa [visAll, visIdx, curOf] using this
+
+/-- C02.4 field listings are strictly ascending (sorted, no duplicates) … -/
+theorem fieldsEx_sorted (cores : List Core) (h : Bool) : Sorted (fieldsEx cores h) :=
+  sorted_filter _ _ (sortDedup_sorted _)
+
+/-- … and list exactly the names whose visibility by the language rule is (visible or, with
+    `include_hidden`, present). -/
+theorem fieldsEx_mem_iff (t : OT) (h : Bool) (x : Name) :
+    x ∈ fieldsEx (compile t) h ↔ x ∈ specFields t h := by
+  simp only [fieldsEx, specFields, List.mem_filter, mem_sortDedup, coreNames_compile,
+    visAll_eq_visIdx, vis_compile]
+
+/-- presence (`objectHasAll`) and visibility (`objectFieldsAll`) are consistent -/
+theorem has_iff_vis (t : OT) (n : Name) : specHas t n = (specVis t n).isSome := by
+  simp only [specHas, specVis]
+  cases h : defs t n with
+  | nil => simp [visSpec]
+  | cons f r =>
+    simp only [List.isEmpty_cons, Bool.not_false, visSpec]
+    cases f.vis <;> simp
+    cases visSpec r <;> simp
+
+/-- C02.5 removed keys: masked on the object they were removed from, other keys untouched, and
+    the mask never reaches below that object (the saturating `prev_layers` counter). -/
+theorem removeKey_masks (o : OT) (ns : List Name) (n : Name) (h : n ∈ ns) :
+    getIdx (compile (.rm o ns)) (compile (.rm o ns)).length n = [] := by
+  have := get_compile (.rm o ns) n
+  have hc : ns.contains n = true := by simpa using h
+  simp only [specGet, defs, hc, ↓reduceIte, chain, List.map_eq_nil_iff] at this
+  exact this
+
+theorem removeKey_other (o : OT) (ns : List Name) (n : Name) (h : n ∉ ns) :
+    (getIdx (compile (.rm o ns)) (compile (.rm o ns)).length n).map (·.1) = specGet o n := by
+  rw [get_compile]
+  simp [specGet, defs, h]
+
+theorem removeKey_local (a o : OT) (ns : List Name) (n : Name) (h : n ∈ ns) :
+    (getIdx (compile (.add a (.rm o ns))) (compile (.add a (.rm o ns))).length n).map (·.1)
+      = specGet a n := by
+  rw [get_compile]
+  simp [specGet, defs, h]
+
+/-- C02.6 extension is associative on the representation -/
+theorem extend_assoc (a b c : OT) : compile (.add (.add a b) c) = compile (.add a (.add b c)) := by
+  simp [compile, List.append_assoc]
+
+/-- `+:` contributions are folded deepest-first: the read's contribution list is the prefix of
+    the definitions ending at the first plain one -/
+theorem plus_fold_order (fs gs : List Field) (n : Name) (f g : Field)
+    (hf : lookup fs n = some f) (hg : lookup gs n = some g) (hadd : g.add = true)
+    (hplain : f.add = false) (hne : fs ≠ []) (hne' : gs ≠ []) :
+    (getIdx (compile (.add (.lit fs) (.lit gs))) 2 n) = [(g, 1), (f, 0)] := by
+  have e1 : fs.isEmpty = false := by cases fs <;> simp_all
+  have e2 : gs.isEmpty = false := by cases gs <;> simp_all
+  simp [getIdx, compile, e1, e2, collect, hf, hg, hadd, hplain]
+
+/-- non-vacuity: a 4-layer chain with a removed key in the middle and a `+:` field on top -/
+example :
+    let base : OT := .lit [⟨0, false, .normal, 10⟩, ⟨1, false, .hidden, 11⟩]
+    let mid : OT := .rm (.add base (.lit [⟨0, true, .normal, 20⟩])) [1]
+    let t : OT := .add (.add (.lit [⟨1, false, .normal, 5⟩]) mid) (.lit [⟨0, true, .unhide, 30⟩, ⟨1, true, .normal, 31⟩])
+    (compile t).length = 5 ∧ specGet t 0 = [⟨0, true, .unhide, 30⟩, ⟨0, true, .normal, 20⟩, ⟨0, false, .normal, 10⟩]
+      ∧ specGet t 1 = [⟨1, true, .normal, 31⟩, ⟨1, false, .normal, 5⟩] ∧ specVis t 1 = some .normal
+      ∧ fieldsEx (compile t) false = [0, 1] := by
+  decide
+
+end JrsVerif.Obj
